@@ -35,7 +35,7 @@ type c10Case struct {
 func c10Cases() []c10Case {
 	var cs []c10Case
 	for _, mon := range []bool{false, true} {
-		for _, f := range []string{"read-syscall", "read-other", "write-syscall", "write-other", "write5-syscall", "write5-other", "timeouts", "link-change", "link-change-then-close", "link-change+rs"} {
+		for _, f := range []string{"read-syscall", "read-other", "write-syscall", "write-other", "write5-syscall", "write5-other", "timeouts", "link-change", "link-change-then-close", "link-change+rs", "link-change-at-tx"} {
 			if mon && strings.HasPrefix(f, "write") {
 				continue
 			}
@@ -64,7 +64,7 @@ func c10Cases() []c10Case {
 }
 
 func c10Recoverable(f string) bool {
-	return f == "read-syscall" || f == "write-syscall" || f == "write5-syscall" || f == "link-change" || f == "link-change+rs" || f == "link-change-then-close" || f == "write-unicast-pending-syscall"
+	return f == "read-syscall" || f == "write-syscall" || f == "write5-syscall" || f == "link-change" || f == "link-change+rs" || f == "link-change-at-tx" || f == "link-change-then-close" || f == "write-unicast-pending-syscall"
 }
 
 func c10Scenario(c c10Case) *vsched.Scenario {
@@ -136,6 +136,12 @@ func c10Scenario(c c10Case) *vsched.Scenario {
 			x.Spawn("driver", func() {
 				defer w.done()
 				vsched.Sleep(5 * time.Second)
+				if c.Fault == "link-change-at-tx" {
+					// The link change arrives at the very instant a rate-limited multicast RA
+					// (requested at 8s, held back until 9s) is due: its worker may be anywhere
+					// between its "still running?" check and its transmission.
+					vsched.Sleep(4 * time.Second)
+				}
 				vsched.Mark()
 				if !strings.HasPrefix(c.Fault, "write") {
 					faultAt = w.now()
@@ -150,7 +156,7 @@ func c10Scenario(c c10Case) *vsched.Scenario {
 					for i := 0; i < 5; i++ {
 						inject(inMsg{err: timeoutErr{}})
 					}
-				case "link-change":
+				case "link-change", "link-change-at-tx":
 					vsched.Send("harness:link-change", watchC, netstate.LinkDown)
 				case "link-change+rs":
 					// A solicitation is read from the socket just as the link change ends the
@@ -344,11 +350,23 @@ func c10Scenario(c c10Case) *vsched.Scenario {
 func TestVerifC10(t *testing.T) {
 	r := ev.Begin("C10", "teardown")
 	defer r.End(t)
-	r.Rule = "executions = goroutine schedules within the deviation bound of the instrumented real Advertiser and Monitor (real Dialer, real dial() over fakes) with one fault injected while running: ReadFrom error (syscall / other), 3rd WriteTo error (syscall / other), five receive timeouts, a link-state change (also followed by the watcher halting); x re-dial answers {ok, link-not-ready once}; x cancellation {none, right after the fault, during the back-off}; oracle on the ordered log: recoverable => old connection cleaned up (left group + closed once) then a new one opened within 1s, given an initial RA, a periodic RA and an answer to a solicitation sent after the re-dial, unrecoverable => Run returns an error within 1s after cleanup, never any I/O on the old connection after close / re-dial / return, cancellation => return within 1s (nil during back-off)"
+	r.Rule = "executions = goroutine schedules within the deviation bound of the instrumented real Advertiser and Monitor (real Dialer, real dial() over fakes) with one fault injected while running: ReadFrom error (syscall / other), 3rd WriteTo error (syscall / other), five receive timeouts, a link-state change (also followed by the watcher halting, together with a solicitation, and at the instant a held-back multicast RA is due; the last two also at bound 2 in the quick tier); x re-dial answers {ok, link-not-ready once}; x cancellation {none, right after the fault, during the back-off}; oracle on the ordered log: recoverable => old connection cleaned up (left group + closed once) then a new one opened within 1s, given an initial RA, a periodic RA and an answer to a solicitation sent after the re-dial, unrecoverable => Run returns an error within 1s after cleanup, never any I/O on the old connection after close / re-dial / return, cancellation => return within 1s (nil during back-off)"
 	opts := exploreOpts{Bound: 1}
 	if r.Thorough() {
 		opts.Bound = 2
 		opts.Budget = 60 * time.Second
 	}
 	exploreCases(t, r, c10Cases(), func(c c10Case) string { return c.Name }, c10Scenario, opts)
+	if !r.Thorough() && r.Replay == nil {
+		// Quick tier: the faults that race with a transmission worker (a worker between its
+		// "still running?" check and its WriteTo while the session is torn down needs two
+		// deviations) also at bound 2.
+		var cs []c10Case
+		for _, c := range c10Cases() {
+			if !c.Monitor && c.Redial == "ok" && (c.Fault == "link-change+rs" || c.Fault == "link-change-at-tx") {
+				cs = append(cs, c)
+			}
+		}
+		exploreCases(t, r, cs, func(c c10Case) string { return c.Name + "@2" }, c10Scenario, exploreOpts{Bound: 2})
+	}
 }
